@@ -284,6 +284,50 @@ def run(ctx):
         for what in WHATS:
             ilines.append(request(what, shape))
             iimpl.append(impl_line(g, what))
+    # call sequences on ONE image object: derive a grid, change the image's voxel shape in place (what any shape-altering
+    # correction with overwrite=True does via `image.img = ...`), copy it, derive again: the grid must follow from the
+    # image's CURRENT shape and voxel size (no state carried over between calls)
+    for _ in range(ctx.pick(6, 30)):
+        dim = rng.choice((2, 3))
+        shape = tuple(rng.randint(1, 5) for _ in range(dim))
+        dims = [rng.choice((0.5, 1.0, 2.0, 3.0)) * s for s in shape]
+        img = call(d.Image, np.zeros(shape), space_dim=dim, dimensions=dims)
+        if isinstance(img, Raised):
+            continue
+        seq = [list(shape)]
+        cur = img
+        for step in range(rng.randint(2, 4)):
+            g = call(d.generate_grid, cur)
+            want_shape = tuple(int(x) for x in cur.num_voxels)
+            rp = {"sequence": seq, "dimensions": dims, "step": step}
+            if isinstance(g, Raised):
+                ctx.fail(f"C07:generate_grid:raises:dim={dim}", f"generate_grid raises {g} after the in-place sequence {seq}", rp)
+                break
+            try:
+                gshape = tuple(int(x) for x in g.shape)
+                vs_ok = bool(np.allclose(np.asarray(g.voxel_size, dtype=float), np.asarray(cur.voxel_size, dtype=float)))
+            except Exception as e:  # noqa: BLE001
+                ctx.fail(f"C07:generate_grid:raises:dim={dim}", f"grid attributes unusable: {type(e).__name__}: {e}", rp)
+                break
+            ctx.count(("gen-seq", tuple(map(tuple, seq)), step))
+            if gshape != want_shape or not vs_ok:
+                ctx.fail(f"C07:generate_grid:stale:dim={dim}", f"generate_grid(image) after changing the image in place (shapes {seq}): grid shape {gshape} / voxel size "
+                         f"{np.asarray(g.voxel_size).tolist()} but the image now has {want_shape} voxels of size {list(cur.voxel_size)}", rp)
+                break
+            grids.append((want_shape, g))
+            for what in WHATS:
+                ilines.append(request(what, want_shape))
+                iimpl.append(impl_line(g, what))
+            new_shape = tuple(rng.randint(1, 5) for _ in range(dim))
+            if rng.random() < 0.3:
+                c = call(cur.copy)
+                if not isinstance(c, Raised):
+                    cur = c
+            try:
+                cur.img = np.zeros(new_shape)
+            except Exception:  # noqa: BLE001
+                break
+            seq.append(list(new_shape))
     ctx.correspond("image-derived-grids", ilines, iimpl)
 
     for shape, g in grids:
@@ -302,6 +346,19 @@ def replay(data):
     import darsia as d
 
     rp = data.get("replay", {})
+    if "sequence" in rp:
+        seq = [tuple(x) for x in rp["sequence"]]
+        print("replay", data.get("signature"), "in-place sequence", seq)
+        img = d.Image(np.zeros(seq[0]), space_dim=len(seq[0]), dimensions=rp["dimensions"])
+        bad = 0
+        for k, sh in enumerate(seq):
+            if k:
+                img.img = np.zeros(sh)
+            g = call(d.generate_grid, img)
+            got = g if isinstance(g, Raised) else tuple(int(x) for x in g.shape)
+            print(f"observed: step {k}: grid shape {got}  required: {tuple(img.num_voxels)}")
+            bad += got != tuple(int(x) for x in img.num_voxels)
+        return 1 if bad else 0
     shape = tuple(rp.get("shape", ()))
     print("replay", data.get("signature"), "shape", shape)
     g = make_grid(d, shape)
